@@ -307,3 +307,157 @@ Proof.
     all: first [ left; solve [repeat split; reflexivity]
                | right; exists (w_exch (works s w)), w; rewrite ?upd_same; cbn; rewrite ?Ep; repeat split; auto; pick ].
 Qed.
+
+Ltac wstart I w :=
+  let Ww := fresh "Ww" in
+  pose proof (inv_work _ I w) as Ww; unfold work_ok in Ww;
+  match goal with Ep : w_pc (works _ w) = _ |- _ => rewrite Ep in Ww end; cbn in Ww;
+  destruct Ww as (W1 & W2 & W3 & W4 & W5 & W6).
+Ltac astep I s w c Ep :=
+  apply inv_worker_step with (s := s) (w := w) (c := c); cbn; rewrite ?upd_same; cbn; auto;
+     [rewrite Ep; reflexivity | apply (inv_nopanic _ I) | frame_tac | frame_tac | .. ].
+
+Ltac wok ::= unfold work_ok; cbn; rewrite ?upd_same; cbn; rewrite ?upd_same; cbn; usepc; cbn;
+  repeat split; intros; pcinv; rewrite ?upd_same; cbn; auto; try lia; try discriminate;
+  try match goal with W : nwork _ <= _ -> _ = WNone, H : nwork _ <= _ |- _ => discriminate (W H) end;
+  try solve [unfold cleanc in *; cbn in *; intuition].
+
+Lemma pres_readerr s w s' : Inv s -> st_readerr s w = Some s' -> Inv s'.
+Proof.
+  intros I. unfold st_readerr. destruct (w_pc (works s w)) eqn:Ep; try discriminate. intros H; inversion H; subst s'; clear H.
+  wstart I w.
+  destruct (W1 c eq_refl) as (Hc & Hidle & Hhard & _). destruct (Hhard eq_refl) as [Hserv Hncl].
+  destruct (inv_conn _ I c) as (K1 & K2 & K3 & K4 & K5).
+  dconn s c. subst.
+  astep I s w c Ep.
+  - cok. repeat split; auto; try lia; discriminate.
+  - wok.
+Qed.
+
+(* the connection itself is untouched; only w's program counter moves away from / never was WRead *)
+Lemma conn_ok_pc s s' w c :
+  conns s' c = conns s c ->
+  (forall w0, w0 <> w -> works s' w0 = works s w0) ->
+  w_pc (works s w) <> WRead c ->
+  conn_ok s c -> conn_ok s' c.
+Proof.
+  intros Hc Hw Hp. apply conn_ok_frame; auto.
+  intros w0 P. destruct (Nat.eq_dec w0 w) as [->|N]; auto; contradiction.
+Qed.
+
+Lemma pres_sendres s w s' : Inv s -> st_sendres s w = Some s' -> Inv s'.
+Proof.
+  intros I. unfold st_sendres. destruct (w_pc (works s w)) eqn:Ep; try discriminate. intros H; inversion H; subst s'; clear H.
+  wstart I w.
+  destruct (W1 c eq_refl) as (Hc & Hidle & Hhard & _). destruct (Hhard eq_refl) as [Hserv Hncl].
+  apply inv_worker_step with (s := s) (w := w) (c := c); cbn; rewrite ?upd_same; cbn; auto.
+  - rewrite Ep; reflexivity.
+  - apply (inv_nopanic _ I).
+  - frame_tac.
+  - apply conn_ok_pc with (s := s) (w := w); cbn; auto. frame_tac. rewrite Ep; discriminate. apply (inv_conn _ I).
+  - destruct r; cbn.
+    + destruct (W4 c q eq_refl) as [-> Hcl]. wok.
+    + wok.
+Qed.
+
+Lemma pres_rel1 s w s' : Inv s -> st_rel1 s w = Some s' -> Inv s'.
+Proof.
+  intros I. unfold st_rel1. destruct (w_pc (works s w)) eqn:Ep; try discriminate.
+  wstart I w.
+  destruct (W1 c eq_refl) as (Hc & Hidle & Hhard & _). destruct (Hhard eq_refl) as [Hserv Hncl].
+  destruct (inv_conn _ I c) as (K1 & K2 & K3 & K4 & K5).
+  destruct ok.
+  - rewrite Hserv. intros H; inversion H; subst s'; clear H.
+    assert (cleanc (conns s c)) as Hcl by (apply W2; auto).
+    unfold cleanc in Hcl. dconn s c. destruct Hcl as (C1 & C2 & C3 & C4 & C5 & C6). subst.
+    astep I s w c Ep.
+    + cok. repeat split; auto; try lia; try discriminate. intros _. left. repeat split; reflexivity.
+    + wok.
+  - intros H; inversion H; subst s'; clear H. unfold fl_close.
+    dconn s c. subst. cbn.
+    astep I s w c Ep.
+    + cok. repeat split; auto; try lia; try discriminate.
+      intros He. destruct (K4 He) as [Hcl | (q & w0 & F & P & X)]; [left; exact Hcl|].
+      right. exists q, w0. rewrite upd_other; auto. intros ->. rewrite Ep in P. discriminate.
+    + wok.
+Qed.
+
+Lemma pres_rel2 s w s' : Inv s -> st_rel2 s w = Some s' -> Inv s'.
+Proof.
+  intros I. unfold st_rel2. destruct (w_pc (works s w)) eqn:Ep; try discriminate.
+  intros H; inversion H; subst s'; clear H.
+  wstart I w.
+  destruct (inv_conn _ I c) as (K1 & K2 & K3 & K4 & K5).
+  destruct ok.
+  - destruct (W1 c eq_refl) as (Hc & Hidle & _ & Hsoft). pose proof (Hsoft eq_refl) as Hserv.
+    assert (cleanc (conns s c)) as Hcl by (apply W2; auto).
+    unfold cleanc in Hcl. unfold fl_close. dconn s c. destruct Hcl as (C1 & C2 & C3 & C4 & C5 & C6). subst.
+    astep I s w c Ep.
+    + cok. destruct (t_closed s); [destruct cl|]; cbn; repeat split; auto; try lia; try discriminate;
+        intros _; left; repeat split; reflexivity.
+    + wok.
+  - apply inv_free_step with (s := s) (w := w); cbn; rewrite ?upd_same; cbn; auto.
+    + rewrite Ep; reflexivity.
+    + apply (inv_nopanic _ I).
+    + frame_tac.
+    + intros c0. destruct (Nat.eq_dec c0 c) as [->|N]; [|rewrite upd_other by auto; apply view_refl].
+      rewrite upd_same. unfold view, cleanc; cbn. destruct (t_closed s); cbn; intuition.
+    + intros c0. destruct (Nat.eq_dec c0 c) as [->|N].
+      * dconn s c. cok. destruct (t_closed s); cbn; (repeat split; auto; try lia; try discriminate;
+        [intros He; destruct (K4 He) as [Hcl | (q & w0 & F & P & X)]; [left; exact Hcl|];
+         right; exists q, w0; rewrite upd_other; auto; intros ->; rewrite Ep in P; discriminate | apply K5; auto .. ]).
+      * apply conn_ok_pc with (s := s) (w := w); cbn; auto; [frame_tac | frame_tac | rewrite Ep; discriminate | apply (inv_conn _ I)].
+    + wok.
+Qed.
+
+Lemma pres_dialabandon s w s' : Inv s -> st_dialabandon s w = Some s' -> Inv s'.
+Proof.
+  intros I. unfold st_dialabandon. destruct (w_pc (works s w)) eqn:Ep; try discriminate.
+  destruct (x_cancel _); try discriminate.
+  wstart I w.
+  destruct oc as [c|]; intros H; inversion H; subst s'; clear H.
+  - destruct (W1 c eq_refl) as (Hc & Hidle & Hhard & _). destruct (Hhard eq_refl) as [Hserv Hncl].
+    assert (cleanc (conns s c)) as Hcl by (apply W2; auto).
+    apply inv_worker_step with (s := s) (w := w) (c := c); cbn; rewrite ?upd_same; cbn; auto.
+    + rewrite Ep; reflexivity.
+    + apply (inv_nopanic _ I).
+    + frame_tac.
+    + apply conn_ok_pc with (s := s) (w := w); cbn; auto. frame_tac. rewrite Ep; discriminate. apply (inv_conn _ I).
+    + wok.
+  - apply inv_free_step with (s := s) (w := w); cbn; rewrite ?upd_same; cbn; auto.
+    + rewrite Ep; reflexivity.
+    + apply (inv_nopanic _ I).
+    + frame_tac.
+    + intros; apply view_refl.
+    + intros c0. apply conn_ok_pc with (s := s) (w := w); cbn; auto. frame_tac. rewrite Ep; discriminate. apply (inv_conn _ I).
+    + wok.
+Qed.
+
+Lemma pres_dialfail s w s' : Inv s -> st_dialfail s w = Some s' -> Inv s'.
+Proof.
+  intros I. unfold st_dialfail. destruct (w_pc (works s w)) eqn:Ep; try discriminate.
+  wstart I w. intros H; inversion H; subst s'; clear H.
+  apply inv_free_step with (s := s) (w := w); cbn; rewrite ?upd_same; cbn; auto.
+  + rewrite Ep; reflexivity.
+  + apply (inv_nopanic _ I).
+  + frame_tac.
+  + intros; apply view_refl.
+  + intros c0. apply conn_ok_pc with (s := s) (w := w); cbn; auto. frame_tac. rewrite Ep; discriminate. apply (inv_conn _ I).
+  + wok.
+Qed.
+
+(* ---- environment ---- *)
+Ltac envstep I s :=
+  apply inv_env_step with (s := s); cbn; auto; [apply (inv_nopanic _ I) | .. ].
+
+Lemma pres_timer s c s' : Inv s -> st_timer s c = Some s' -> Inv s'.
+Proof.
+  intros I. unfold st_timer. destruct (inv_conn _ I c) as (K1 & K2 & K3 & K4 & K5).
+  destruct (f_armed (fl (conns s c))) eqn:Ea; try discriminate.
+  destruct (f_serving (fl (conns s c))) eqn:Es; intros H; inversion H; subst s'; clear H; envstep I s.
+  all: try (intros c0; destruct (Nat.eq_dec c0 c) as [->|N]; [rewrite upd_same|rewrite upd_other by auto; apply view_refl];
+            unfold view, cleanc; cbn; rewrite ?Es; intuition congruence).
+  all: intros c0; destruct (Nat.eq_dec c0 c) as [->|N];
+       [| apply conn_ok_frame with s; cbn; auto; [frame_tac | apply (inv_conn _ I)]].
+  all: unfold conn_ok in *; cbn; rewrite upd_same; cbn; unfold cleanc, flight in *; cbn; rewrite ?Es; intuition.
+Qed.
